@@ -17,5 +17,5 @@ Extraction "Extract/model.ml"
   signer_from_seed run_signer messages run_verifier
   pc_new pc_run pc_total pc_total_bytes agg_run cs_get rep_receive
   parse_blob decrypt_seed encrypt_seed
-  effective
-  make_request client_handle.
+  effective is_valid_config
+  make_request client_handle client_run exit_zero.
